@@ -306,6 +306,8 @@ func (w *World) startServer(o *OptSpec, att *AttachSpec) {
 		w.mu.Unlock()
 		w.recx(Ev{Sess: alias, Kind: "connection", S: sock.Id(), St: sockState(sock), N: int64(sock.Protocol())})
 		w.attachSocket(alias, sock)
+		// listeners registered from here on see everything; events that raced with the registration may be missed
+		w.recx(Ev{Sess: alias, Kind: "app-attached"})
 	})
 	srv.On("connection_error", func(a ...any) {
 		em, _ := a[0].(*types.ErrorMessage)
